@@ -128,22 +128,20 @@ def r2(ck, rule="C01-R2"):
 
 
 def r3(ck, rule="C01-R3"):
+    """Applying forward compares and removes the `remove` side and inserts the `add` side; reverting exchanges the two.  Decided on the
+    value each public accessor of HunkView returns when the direction is fixed (sides.py) - whether the side is picked by a match, by
+    `== Forward`, through a helper or by projecting a pair."""
+    from .. import sides
     prog = ck.prog
-    want = {"remove_part": {"Forward": "remove", "Revert": "add"}, "add_part": {"Forward": "add", "Revert": "remove"}}
+    want = {"remove_content": {"Forward": "remove", "Revert": "add"}, "remove_target_line": {"Forward": "remove", "Revert": "add"},
+            "add_content": {"Forward": "add", "Revert": "remove"}, "add_target_line": {"Forward": "add", "Revert": "remove"}}
     for name, tbl in want.items():
         fn = ck.anchor("HunkView::<'a, 'hunk, Line>::%s" % name)
         if fn is None:
             continue
-        shape = seqmodel.return_shape(prog, fn.id)
-        ok = False
-        got = None
-        if shape and shape[0] == "cases" and isinstance(shape[1], tuple) and shape[1][0] == "field" and shape[1][2] == "direction":
-            got = {}
-            for var, e in shape[2].items():
-                f = [x[2] for x in df.walk(e) if isinstance(x, tuple) and x[0] == "field" and x[2] in ("remove", "add")]
-                got[var] = f[0] if len(f) == 1 else None
-            ok = got == tbl
-        ck.require(ok, rule, "%s() picks the %s side when applying forward and the other one when reverting" % (name, tbl["Forward"]),
+        got = {d: sorted(sides.part_read(prog, fn, d)) for d in ("Forward", "Revert")}
+        ok = all(got[d] == [tbl[d]] for d in got)
+        ck.require(ok, rule, "%s() reads the %s side when applying forward and the other one when reverting" % (name, tbl["Forward"]),
                    "%s() maps directions to sides as %s" % (name, got), fn.where(), ok_detail=str(got))
     # try_apply_hunk compares the old side, apply_modify splices old -> new: C03-R1 / C02-R4 check the accessors used there
 
